@@ -4,7 +4,10 @@ import (
 	"github.com/spf13/cobra"
 	"grog/internal/config"
 	"grog/internal/console"
+	"grog/internal/locking"
 	"os"
+	"path/filepath"
+	"strings"
 )
 
 var expunge bool
@@ -18,16 +21,36 @@ By default, only the workspace-specific cache is cleaned. Use the --expunge flag
   grog clean --expunge   # Clean the entire grog cache`,
 	Args: cobra.NoArgs,
 	Run: func(cmd *cobra.Command, args []string) {
-		_, logger := console.SetupCommand()
+		ctx, logger := console.SetupCommand()
 
-		var dirToClear string
+		workspaceDir := config.Global.GetWorkspaceRootDir()
+		dirToClear := workspaceDir
 		if expunge {
 			dirToClear = config.Global.Root
-		} else {
-			dirToClear = config.Global.GetWorkspaceRootDir()
 		}
 
-		if err := os.RemoveAll(dirToClear); err != nil {
+		// The workspace directory holds the lock file and the cache of a build that may be
+		// running right now. Wait for it like a build would and keep the lock (and its lock
+		// file) while cleaning, so that no build runs on - or starts with - a half-deleted
+		// cache and no second build slips past a deleted lock file.
+		keep := ""
+		if !config.Global.SkipWorkspaceLock {
+			if err := os.MkdirAll(workspaceDir, 0755); err != nil {
+				logger.Fatalf("Clean failed: %v", err)
+			}
+			locker := locking.NewWorkspaceLocker()
+			if err := locker.Lock(ctx); err != nil {
+				logger.Fatalf("could not acquire workspace lock: %v", err)
+			}
+			defer func() {
+				if err := locker.Unlock(); err != nil {
+					logger.Fatalf("failed to release workspace lock: %v", err)
+				}
+			}()
+			keep = filepath.Join(workspaceDir, locking.LockFileName)
+		}
+
+		if err := removeAllExcept(dirToClear, keep); err != nil {
 			logger.Fatalf("Clean failed: %v", err)
 		}
 
@@ -41,6 +64,37 @@ By default, only the workspace-specific cache is cleaned. Use the --expunge flag
 			logger.Info("Workspace cache cleaned successfully.")
 		}
 	},
+}
+
+// removeAllExcept removes everything below dir apart from the file keep (and the
+// directories leading to it). With an empty keep it is os.RemoveAll(dir).
+func removeAllExcept(dir string, keep string) error {
+	if keep == "" {
+		return os.RemoveAll(dir)
+	}
+	entries, err := os.ReadDir(dir)
+	if err != nil {
+		if os.IsNotExist(err) {
+			return nil
+		}
+		return err
+	}
+	for _, entry := range entries {
+		path := filepath.Join(dir, entry.Name())
+		if path == keep {
+			continue
+		}
+		if entry.IsDir() && strings.HasPrefix(keep, path+string(filepath.Separator)) {
+			if err := removeAllExcept(path, keep); err != nil {
+				return err
+			}
+			continue
+		}
+		if err := os.RemoveAll(path); err != nil {
+			return err
+		}
+	}
+	return nil
 }
 
 func AddCleanCmd(rootCmd *cobra.Command) {
